@@ -632,11 +632,10 @@ impl<M: Manager, W: From<Object<M>>> Pool<M, W> {
     pub fn status(&self) -> Status {
         let slots = self.inner.slots.lock().unwrap();
         let users = self.inner.users.load(Ordering::Relaxed);
-        let (available, waiting) = if users < slots.size {
-            (slots.size - users, 0)
-        } else {
-            (0, users - slots.size)
-        };
+        // `users` counts the objects which are handed out and the callers
+        // which are inside `get()`. The idle objects are known exactly.
+        let available = slots.vec.len();
+        let waiting = users.saturating_sub(slots.size.saturating_sub(available));
         Status {
             max_size: slots.max_size,
             size: slots.size,
